@@ -21,7 +21,8 @@ SPEC_FUNCS = {"implies", "iff", "old", "forall", "exists", "isdict", "islist", "
               "isobj", "isnum", "to_real", "is_decimal_str", "str_to_int", "int_to_str", "haskey", "content_eq",
               "istuple", "iscallable", "seq_eq_upto", "strlen", "lower_ascii", "keys_subset", "real",
               "list_eq", "is_exc", "no_new_keys", "trunc", "AP", "RP", "EPT", "INSTANT", "NOW", "RFC3339_OK", "rmax", "rmin",
-              "istrue", "NAIVE", "unchanged_except", "isemptydict", "isfalse"}
+              "istrue", "NAIVE", "unchanged_except", "isemptydict", "isfalse",
+              "prefix_unchanged"}
 
 BUILTIN_FUNCS = {
     "len", "isinstance", "int", "str", "float", "bool", "min", "max", "abs", "dict", "list", "tuple", "set",
@@ -169,10 +170,8 @@ def comprehension(ex, st, ctx, e, kind):
     seq = iter_to_seq(ex, st, ctx, it, e)
     if seq is None or st.dead:
         return VNone
-    if isinstance(seq, tuple):
-        ex.unsupported(st, ctx, "comprehension over symbolic enumerate", e)
-        return VNone
-    ln = simp(z3.Length(seq))
+    is_tup = isinstance(seq, tuple)
+    ln = simp(ex.it_len(seq))
     fid = ex.new_frame(ctx.unit, ctx.fid)
     st.frames[fid] = {}
     cctx = ctx.derive(fid=fid)
@@ -183,7 +182,10 @@ def comprehension(ex, st, ctx, e, kind):
         vals = []
         conds = []
         for i in range(ln.as_long()):
-            ex.assign_target(g.target, simp(seq[i]), st, cctx)
+            if is_tup:
+                ex.it_assign(g.target, seq, z3.IntVal(i), st, cctx)
+            else:
+                ex.assign_target(g.target, simp(seq[i]), st, cctx)
             c = z3.BoolVal(True)
             for cond in g.ifs:
                 c = z3.And(c, ex.truth(ex.eval(cond, st, cctx), st))
@@ -212,7 +214,10 @@ def comprehension(ex, st, ctx, e, kind):
     # symbolic length: elementwise comprehension without filter -> axiomatised map
     idx = fresh("ci", I)
     body_st = st.fork()
-    ex.assign_target(g.target, seq[idx], body_st, cctx)
+    if is_tup:
+        ex.it_assign(g.target, seq, idx, body_st, cctx)
+    else:
+        ex.assign_target(g.target, seq[idx], body_st, cctx)
     pre_heap = body_st.heap
     raises = []
     bctx = cctx.derive(raises=raises)
@@ -227,13 +232,16 @@ def comprehension(ex, st, ctx, e, kind):
     st.frames.pop(fid, None)
     # exceptional paths inside the element expression: under "some idx in range"
     for rs, exc in raises:
-        rs.guard(z3.And(idx >= 0, idx < z3.Length(seq)))
+        rs.guard(z3.And(idx >= 0, idx < ex.it_len(seq)))
         ctx.raises.append((rs, exc))
     pure = body_st.heap is pre_heap or (body_st.heap.DV.eq(pre_heap.DV) and body_st.heap.DP.eq(pre_heap.DP)
                                         and body_st.heap.LS.eq(pre_heap.LS))
-    if kind == "gen":
+    if kind == "gen" and not is_tup:
         return ex.obj("gensym", seq, idx, val, simp(conds), body_st.pc)
-    if kind == "list" and not g.ifs and pure:
+    if kind == "gen":
+        ex.unsupported(st, ctx, "generator over symbolic items/enumerate", e)
+        return VNone
+    if kind == "list" and not g.ifs and pure and not is_tup:
         out = fresh("comp", SeqV)
         ex.assumptions.append(z3.Length(out) == z3.Length(seq))
         body = z3.substitute(val, (idx, z3.Const("i!cmp", I)))
@@ -248,7 +256,7 @@ def comprehension(ex, st, ctx, e, kind):
                        st.heap.LS)
         return VRef(r)
     out = fresh("comp", SeqV)
-    ex.assumptions.append(z3.Length(out) <= z3.Length(seq))
+    ex.assumptions.append(z3.Length(out) <= ex.it_len(seq))
     return b.new_list_seq(ex, st, out, T_LIST if kind == "list" else T_SET)
 
 
